@@ -60,8 +60,18 @@ class Program:
         for ci in self.classes.values():
             res = []
             for b in ci.node.bases:
-                res.append(self._resolve_name(ci.module, b))
+                res.append(self.canonical(self._resolve_name(ci.module, b)))
             ci.bases = res
+
+    def canonical(self, q, depth=0):
+        """follow re-exports: pexpect.spawn -> pexpect.pty_spawn.spawn"""
+        if q in self.classes or q in self.funcs or depth > 4:
+            return q
+        mod, _, nm = q.rpartition('.')
+        tgt = self.imports.get(mod, {}).get(nm)
+        if tgt and tgt != q:
+            return self.canonical(tgt, depth + 1)
+        return q
 
     def _resolve_name(self, module, node):
         if isinstance(node, ast.Name):
@@ -78,7 +88,14 @@ class Program:
 
     def _index_module(self, mod, tree, src, path):
         pkgbase = 'pexpect'
+        body = list(tree.body)
+        # imports nested in top-level if / try blocks (platform switches) count as module-level imports
         for node in tree.body:
+            if isinstance(node, (ast.If, ast.Try)):
+                for sub in ast.walk(node):
+                    if isinstance(sub, (ast.ImportFrom, ast.Import)):
+                        body.append(sub)
+        for node in body:
             if isinstance(node, ast.ImportFrom):
                 if node.level >= 1:
                     target = pkgbase + ('.' + node.module if node.module else '')
